@@ -607,9 +607,9 @@ func runC10(c *run.Ctx) {
 					// deepest layer: one scope per matcher kind plus the named ones
 					set = nil
 					for i := range bs {
-						// (generated scope x matcher rule sets on a sixth of the documents each, the named ones on half)
+						// (generated scope x matcher rule sets on a ninth of the documents each, the named ones on a third)
 						gen := strings.Contains(bs[i].S.Name, "-style")
-						if gen && (i+len(doc))%6 == 0 || !gen && (i+len(doc))%2 == 0 {
+						if gen && (i+len(doc))%9 == 0 || !gen && (i+len(doc))%3 == 0 {
 							set = append(set, bs[i])
 						}
 					}
